@@ -27,7 +27,7 @@ META = {
              "once or a fault fired"),
     "abstract_measure": "distinct (handles open at once) values",
     "gates": {"quick": {"handles_overlap": 1500, "two_clients": 800, "pickle_boundary": 500,
-                        "io_error": 300, "self_overlapping_delim": 400},
+                        "io_error": 300, "self_overlapping_delim": 400, "two_blocksizes_one_compute": 300},
               "thorough": {"handles_overlap": 1500}},
     "anchors": ["dask/bytes/core.py", "dask/bag/text.py"],
     "real": ["dask.bytes.core.read_bytes / read_block_from_file", "dask.bag.text.read_text / file_to_blocks / "
@@ -107,6 +107,10 @@ def run_one(tape, cfg):
         if blocksize is None and tape.chance(1, 2, "fpp"):
             fpp = 1 + tape.draw(nfiles, "fppn")
         include_path = tape.chance(1, 4, "incpath")
+        # the same files read a second time with another blocksize, both reads computed in one call
+        blocksize2 = None
+        if blocksize is not None and tape.chance(1, 3, "two_reads"):
+            blocksize2 = 1 + tape.draw(maxb, "bs2")
         api = ("read_bytes", "read_text")[tape.draw(2, "api")]
         klass = tape.weighted([(4, "threads"), (3, "two_clients"), (2, "pickle"), (2, "io_error")], "klass")
         nworkers = 2 + tape.draw(3, "nw")
@@ -116,7 +120,10 @@ def run_one(tape, cfg):
     paths = [f"simfs://d/f{i}.txt" for i in range(nfiles)]
     for p, d in zip(paths, datas):
         simfs.put(p, d)
-    wl = {"delim": delim, "texts": texts, "blocksize": blocksize, "files_per_partition": fpp,
+    if blocksize2 is not None and blocksize2 != blocksize:
+        out.probe("two_blocksizes_one_compute")
+    wl = {"delim": delim, "texts": texts, "blocksize": blocksize, "blocksize2": blocksize2,
+          "files_per_partition": fpp,
           "include_path": include_path, "api": api, "class": klass, "nworkers": nworkers, "policy": policy}
     out.decoded = wl
     out.wdigest = dg(wl)
@@ -127,27 +134,30 @@ def run_one(tape, cfg):
     results = []
     fault_fired = 0
 
-    def build():
+    def build1(bs):
         if api == "read_bytes":
-            r = read_bytes(paths, delimiter=delim.encode(), blocksize=blocksize, sample=False,
+            r = read_bytes(paths, delimiter=delim.encode(), blocksize=bs, sample=False,
                            include_path=include_path)
             return r
         kw = {"linedelimiter": delim, "include_path": include_path}
-        if blocksize is not None:
-            kw["blocksize"] = blocksize
+        if bs is not None:
+            kw["blocksize"] = bs
         if fpp is not None:
             kw["files_per_partition"] = fpp
         return db.read_text(paths, **kw)
 
-    def compute(obj, get):
+    def build():
+        return [build1(blocksize)] + ([build1(blocksize2)] if blocksize2 is not None else [])
+
+    def compute(objs, get):
+        """All reads in one scheduler call; one result per read."""
         if api == "read_bytes":
-            blocks = obj[1]
-            flat = [b for fb in blocks for b in fb]
+            flat = [b for obj in objs for fb in obj[1] for b in fb]
             vals = dask.compute(*flat, scheduler=get) if flat else ()
             it = iter(vals)
-            per_file = [[next(it) for _ in fb] for fb in blocks]
-            return ("bytes", per_file, obj[2] if include_path else None)
-        return ("lines", obj.compute(scheduler=get), None)
+            return [("bytes", [[next(it) for _ in fb] for fb in obj[1]], obj[2] if include_path else None)
+                    for obj in objs]
+        return [("lines", v, None) for v in dask.compute(*objs, scheduler=get)]
 
     def check(res):
         kind, val, rpaths = res
@@ -162,7 +172,7 @@ def run_one(tape, cfg):
                 if cat != data:
                     return ("blocks_do_not_concatenate",
                             f"file {i}: blocks {blocks!r} concatenate to {cat!r}, file is {data!r} "
-                            f"(delimiter {delim!r}, blocksize {blocksize})")
+                            f"(delimiter {delim!r}, blocksizes {blocksize}/{blocksize2})")
                 pos = 0
                 d = delim.encode()
                 for b in blocks[:-1]:
@@ -194,7 +204,7 @@ def run_one(tape, cfg):
         try:
             with sim:
                 get = partial(dask.multiprocessing.get, pool=sim.executor)
-                results.append(compute(obj, get))
+                results.extend(compute(obj, get))
         except BaseException as e:  # noqa: BLE001
             problems.append(("read_raised", f"{type(e).__name__} at {exc_site(e)}: {e}"))
         digest = sim.digest()
@@ -222,7 +232,7 @@ def run_one(tape, cfg):
 
                 def client():
                     try:
-                        results.append(compute(obj, simget))
+                        results.extend(compute(obj, simget))
                     except OSError as e:
                         excs.append(e)
 
@@ -243,7 +253,7 @@ def run_one(tape, cfg):
         if klass == "io_error" and fault_fired:
             out.probe("io_error")
             out.faults["io_error"] = fault_fired
-            if not excs and len(results) == nclients:
+            if not excs and len(results) == nclients * (2 if blocksize2 is not None else 1):
                 out.info["io_error_absorbed"] = 1
         digest = sched.digest()
         steps = sched.steps
